@@ -157,7 +157,7 @@ func TestC04A(t *testing.T) {
 						th.InOp = true
 						inside++
 						if o.kind == 0 {
-							w.sl.Insert2(w.item(o.key), skiplist.CompareInt, nil, buf, levelFn(o.level), sts)
+							w.insert(o.key, buf, o.level, sts)
 						} else {
 							tok := w.ab.Acquire()
 							_, curr, found := w.sl.Lookup(w.item(o.key), skiplist.CompareInt, buf, sts)
@@ -274,8 +274,8 @@ func TestC04A(t *testing.T) {
 		}
 		// at quiescence everything unlinked has been freed: live blocks == linked nodes + 2 sentinels
 		nodes, _ := reachable(w.sl)
-		if live := w.arena.LiveCount(); live != len(nodes)+2 {
-			f.failf("unlinked-not-freed", "at quiescence the allocator holds %d live blocks but only %d nodes (+2 sentinels) are linked", live, len(nodes))
+		if live := w.arena.LiveCount(); live != 2*len(nodes)+2 {
+			f.failf("unlinked-not-freed", "at quiescence the allocator holds %d live blocks but only %d nodes (with one item each, +2 sentinels) are linked", live, len(nodes))
 		}
 		w.walkCheck("quiescent-")
 		st.Case(f.desc(), hasFree && (freesDuringAccess > 0 || iterOnDeleted))
